@@ -120,6 +120,27 @@ def preload() -> None:
     _preload()
 
 
+def _target(name: str):
+    """Targets for --generation-maximize: the shipped one and two faulty user-written ones (values Hypothesis rejects)."""
+    import math
+
+    from schemathesis.generation.targets import TARGETS
+
+    if name == "response_time":
+        return TARGETS.get_by_names(["response_time"])[0] if hasattr(TARGETS, "get_by_names") else TARGETS._items["response_time"]
+    if name == "inf-for-bodyless":
+
+        def vfw_inf_target(context):
+            return math.inf if type(context.case.body).__name__ == "NotSet" else 1.0
+
+        return vfw_inf_target
+
+    def vfw_nan_target(context):
+        return math.nan if context.response.status_code == 200 else 0.0
+
+    return vfw_nan_target
+
+
 def build_config(cfg: dict):
     import hypothesis
     import schemathesis.specs.openapi.checks  # noqa: F401 - registers the OpenAPI checks
@@ -149,6 +170,7 @@ def build_config(cfg: dict):
     execution = ExecutionConfig(
         phases=phases,
         checks=checks,
+        targets=[_target(name) for name in cfg.get("targets") or []],
         hypothesis_settings=hypothesis.settings(**hs),
         generation=GenerationConfig(modes=modes, **cfg.get("generation", {})),
         max_failures=cfg.get("max_failures"),
